@@ -178,7 +178,7 @@ PROPS = {
         level_text="bounded exploration through the symbolic executor, two halves: (1) for every instance of a template of two mutually referring productions (recursive reference in the first or a later alternative, after optional / lookahead / non-empty prefixes, inside groups, captures and lookahead groups, through the other production) the real validate/visit/isLeftRecursive run on the directly constructed node graph and are compared with a reference analysis (nullable + leftmost-call graph + cycle search); (2) every instance that validate accepts is parsed on a symbolic token stream under a monitor around (*strct).Parse asserting that no production is re-entered at the same cursor (solver-decided on token texts and the lookahead)",
         level_note="trusted: the reference analysis (half 1) - cross-checked by the independent run-time monitor (half 2); node graphs are built as parseSequence/parseDisjunction shape them (head flags, collapsing of singletons); the template's selectors are finite, so for half 1 the solver decides feasibility only; bounds below",
         runs=[dict(pkg=".", files=["root/zz_verif_ref.go", "root/zz_verif_parse.go", "root/zz_verif_grammars.go", "root/zz_verif_graph.go"], harness="^VH_C08_",
-                   reach={"VH_C08_Validate": ["left-recursive", "not-left-recursive"], "VH_C08_Parse": ["accepted-by-validate", "parsed", "rejected"]})],
+                   reach={"VH_C08_Validate": ["left-recursive", "not-left-recursive"], "VH_C08_ValidateWide": ["left-recursive", "not-left-recursive"], "VH_C08_Parse": ["accepted-by-validate", "parsed", "rejected"]})],
         bounds=dict(quick="root production: 1-2 alternatives, <= 2 terms in the first and 1 in the second, 9 term kinds (literal, lit?, (?= lit), ~lit, @@self, @@other, (@@self)?, (?= @@self), (lit?)!); second production: 1-2 terms from {literal, lit?, @@self, @@root}: 18 000 grammars; parse half: streams <= 3 tokens, lookahead any int",
                     thorough="second alternative <= 2 terms, 14 term kinds (adds lit*, lit+, (?! lit), (@@self), ~(@@other)); streams <= 4 tokens"),
         outside="grammars outside the template (3+ productions, unions, deeper nesting); the front end that builds the graph from tags is covered by C01/C19",
@@ -248,7 +248,7 @@ import re as _re
 import subprocess as _sp
 
 C05_DEFS = ["Literal", "Overlap", "Classes", "Dot", "Multibyte", "Anchors", "Alternation", "Fold", "PushPop", "String",
-            "Return", "IncludeFirst", "IncludeMiddle", "IncludeNested", "PopInRoot", "ReturnInRoot", "OptionalGroupPush",
+            "Return", "ReturnNested", "ReturnSelf", "IncludeFirst", "IncludeMiddle", "IncludeNested", "PopInRoot", "ReturnInRoot", "OptionalGroupPush",
             "Possessive", "Repeat", "EmptyAlt", "NoWordBoundary", "EndAnchors", "FoldClass", "DotAll", "NonASCIILit", "NegClass"]
 
 GENPKG_DIR = "lexer/internal/zzverifgen"
